@@ -22,7 +22,7 @@ import (
 
 func TestMain(m *testing.M) {
 	vh.Rule("both login flows against a scripted peer. exhaustive: the valid reply scripts (plain: LOGINACK(SUCCEED) DONE(FINAL); encrypted: LOGINACK(NEGOTIATE) MSG(ENCRYPT4) PARAMFMT(INT4,LONGBINARY,LONGBINARY) PARAMS(1, PEM PKCS#1 key, nonce) DONE, then LOGINACK(SUCCEED) CAPABILITY DONE(FINAL), with ENVCHANGE(PACKSIZE) and info EEDs in between) and EVERY single-edit mutation of them: delete / duplicate / swap-adjacent each package, alter each field (ack status, msg id, parameter count, each parameter type, cipher-suite value, key truncated/garbled/empty/wrong PEM type, nonce empty/long, capability masks all zero, DONE status bits), peer going silent in the middle of either response; rapid: random multi-edit scripts, all packetisations, RSA 1024/1536/2048, nonces 0..64 bytes, 0..3 remote servers. Oracle: a reference acceptor written from the property text classifies each script; Login must return nil iff ACCEPT, an error (never a panic, never later than context deadline + 3 s) otherwise; after success Conn.Caps equals the server's masks and PacketSize() the announced size. Non-trivial: the script differs from the valid one; distinct by the script")
-	vh.Assume("packages after the final DONE of a response are out of scope (next response); a key followed by trailing bytes, an empty nonce and capability packages that lack a mask type are not judged; the password fits the key (nonce+password <= OAEP capacity); context deadline 2 s for complete scripts (never reached on a correct tree), 300 ms where the peer goes silent")
+	vh.Assume("packages after the final DONE of a response are out of scope (next response); a key followed by trailing bytes, an empty nonce and capability packages that lack a mask type are not judged; the password and the 32-byte session key fit the key (nonce+secret <= OAEP capacity); context deadline 2 s for complete scripts (never reached on a correct tree), 300 ms where the peer goes silent")
 	vh.Rule("also: cipher suites 3, 5, 257, 65537, -1, ...; informational message / environment change / packet size announcement inserted at every position of both replies (accepted: the channel filters them); the valid replies of the other flow (rejected)")
 	vh.Main(m, "C08")
 }
@@ -772,7 +772,13 @@ func TestRandomScripts(t *testing.T) {
 			n := key.Capacity() - 32 - rapid.IntRange(0, 2).Draw(rt, "below")
 			nonce = rapid.SliceOfN(rapid.Byte(), n, n).Draw(rt, "nonce-at-capacity")
 		} else {
-			nonce = rapid.SliceOfN(rapid.Byte(), 0, 64).Draw(rt, "nonce")
+			// (the 32-byte session key has to fit behind the nonce: a longer nonce makes the
+			// client give up on a reply that is an acceptance - C09 judges those logins)
+			max := key.Capacity() - 32
+			if max > 64 {
+				max = 64
+			}
+			nonce = rapid.SliceOfN(rapid.Byte(), 0, max).Draw(rt, "nonce")
 		}
 		extras := rapid.Bool().Draw(rt, "extras")
 		ps := 0
